@@ -133,6 +133,19 @@ def models(mb: ModelBuilder) -> dict[str, AObj]:
     ms = {"rich": rich_model(mb), "rich-noctc": rich_model(mb, ctcs=False)}
     for k in ("root-only", "one-child", "bushy", "two-groups", "wide-12", "nested-groups", "five-groups", "deep-9"):
         ms[k] = mb.model(build_tree(mb, TREES[k]), [])
+    # abstract and concrete features among leaves and compounds in different numbers (2 abstract compound, 3 abstract leaves,
+    # 2 concrete compound, 4 concrete leaves): a share computed the wrong way round, or over the wrong listing, shows
+    F_ = mb.feature
+    ar = F_("AR", is_abstract=True)
+    ac, cc1, cc2 = F_("AC", is_abstract=True), F_("CC1"), F_("CC2")
+    mb.relation(ar, [ac], 1, 1)
+    mb.relation(ar, [cc1], 0, 1)
+    mb.relation(ar, [cc2], 0, 1)
+    mb.relation(ac, [F_("al1", is_abstract=True), F_("al2", is_abstract=True), F_("cl1")], 1, 2)
+    mb.relation(cc1, [F_("al3", is_abstract=True)], 1, 1)
+    mb.relation(cc1, [F_("cl2")], 0, 1)
+    mb.relation(cc2, [F_("cl3"), F_("cl4")], 1, 1)
+    ms["abstract-mix"] = mb.model(ar, [])
     # twelve constraints of every class over a wide tree, one feature named in eleven of them (two-digit counts)
     hub = mb.feature("Hub")
     spokes = [mb.feature(f"S{i:02d}") for i in range(12)]
